@@ -100,18 +100,19 @@ from vlib import build, refmodel
 import numpy as np, tempfile, os, shutil, sys, glob, hashlib
 top = tempfile.mkdtemp(prefix='tmp.drf_'); ch = os.path.join(top, 'ch'); os.makedirs(ch)
 cfg = dict(n=10, d=1, sc=3600, fc=1000, start=10**10)
-def session(start_rel, n, cont):
+def session(start_rel, n, cont, again=False):
     rw = refmodel.RealWriter(build, ch, cfg['n'], cfg['d'], cfg['sc'], cfg['fc'], cfg['start'], cont)
     if not rw.obj: return 'NULL'
     r = rw.write_blocks([start_rel], [0], (np.arange(n, dtype=np.int16) + 100).reshape(-1, 1))
+    if again: r = (r, rw.write_blocks([start_rel + 1], [0], (np.arange(3, dtype=np.int16) + 100).reshape(-1, 1)))[0 if r == 0 else 1]      # a second write into the same period
     r2 = rw.write_blocks([start_rel + 50], [0], (np.arange(5, dtype=np.int16) + 200).reshape(-1, 1))
     rw.close(); return (r, r2)
 bad = 0
-for cont in (0, 1):
+for cont, again in ((0, False), (1, False), (0, True), (1, True)):
     shutil.rmtree(ch, ignore_errors=True); os.makedirs(ch)
     print('cont', cont, 'session 1', session(0, 25, cont))
     h0 = {f: hashlib.md5(open(f, 'rb').read()).hexdigest() for f in glob.glob(os.path.join(ch, '*', 'rf@*.h5'))}
-    r = session(12, 10, cont)            # would need the finalized period 1 (samples 10..19)
+    r = session(12, 5, cont, again)            # would need the finalized period 1 (samples 10..19), once or twice in a row
     print('cont', cont, 'session 2', r)
     h1 = {f: (hashlib.md5(open(f, 'rb').read()).hexdigest() if os.path.exists(f) else None) for f in h0}
     if h1 != h0: print('a finalized file of session 1 changed or vanished'); bad = 1
@@ -185,6 +186,17 @@ sys.exit(1 if bad else 0)
 '''
 
 
+def run_all_bodies(bodies):
+    """a replay made of several scenario scripts: reproduces (exit 1) if any of them does"""
+    return ('import subprocess, sys, os, tempfile\nbodies = %r\nrc = 0\n'
+            'for body in bodies:\n'
+            '    f = tempfile.NamedTemporaryFile("w", suffix=".py", delete=False); f.write("import sys; sys.path.insert(0, %r)\\n" + body); f.close()\n'
+            '    r = subprocess.call([sys.executable, f.name]); os.unlink(f.name)\n'
+            '    if r == 1: rc = 1\n'
+            '    elif r != 0 and rc == 0: rc = 3\n'
+            'sys.exit(rc)\n') % (list(bodies), '/verif')
+
+
 def report(rep, specs, results, select, sigmap=None, label='write path'):
     """fold per-configuration results into obligations of `rep`.  select(name) -> bool chooses the obligations of this property."""
     by_ob = {}
@@ -226,7 +238,8 @@ def report(rep, specs, results, select, sigmap=None, label='write path'):
             rep.violation(nm, sig, 'fails in "%s": %s' % (sp['name'], str(m)[:300]), replay_body=REPLAY_ATTRS, bounds=sp['name'], sample={'model': str(m)[:400]})
             continue
         if nm.startswith('only files this writer created and closed'):
-            rep.violation(nm, sig, 'fails in "%s": %s' % (sp['name'], str(m)[:300]), replay_body=REPLAY_STALE, bounds=sp['name'], sample={'model': str(m)[:400]})
+            from checks import readerside
+            rep.violation(nm, sig, 'fails in "%s": %s' % (sp['name'], str(m)[:300]), replay_body=run_all_bodies([REPLAY_STALE, REPLAY_SESSION]), bounds=sp['name'], sample={'model': str(m)[:400]})
             continue
         if nm.startswith(SESSION_OBLIGATIONS):
             # obligations about files of an earlier session: replayed as a two-session recording on the real build
